@@ -72,8 +72,12 @@ def run_pipeline(ctx, srv, tr, cid, reqs, cuts, raw_tail=None):
         if r[0] == 'garbage':
             break
     t1 = tr.now() + 1
-    log = [e for e in srv.ctl.drain() if e['kind'] in ('cmd', 'cmderr')] if srv.alive() else []
-    srv.ctl.cmd('LOGOFF') if srv.alive() else None
+    try:        # a server process that is just ending may still look alive
+        log = [e for e in srv.ctl.drain() if e['kind'] in ('cmd', 'cmderr')] if srv.alive() else []
+        srv.ctl.cmd('LOGOFF') if srv.alive() else None
+    except OSError:
+        log = []
+        time.sleep(0.2)
     # this connection's server records: it is the only client besides none => all records are ours
     pos = 0
     in_multi = False
@@ -314,12 +318,18 @@ def run(ctx):
             for t in (tails[(ctx.seed + off) % 4::2] if ctx.quick else tails):
                 h = b'N' * off + t + b'zz'
                 for tpl in echoing:
+                    if not srv.alive():
+                        break
                     cid += 1
                     run_pipeline(ctx, srv, tr, cid, [tpl(h), [b'ECHO', g.marker()]], [])
                     cases += 1
                     nlong += 1
                 if not srv.alive():
                     break
+            if not srv.alive():
+                break
+        if not srv.alive():
+            break
     ctx.extra_cov['long_hostile_pipelines'] = nlong
     if not srv.alive():
         tr.emit({'k': 'crash', 'status': srv.exit_status()})
